@@ -18,10 +18,10 @@ Flag(c, ok) == IF ok THEN {} ELSE {c}
 NoCmd == [kind |-> "", wf |-> 1, addr |-> 0, content |-> 0, now |-> 0]
 Init == /\ tid \in 1..Len(Traces) /\ l = 1 /\ bad = {}
         /\ S = [greeted |-> FALSE, helo |-> FALSE, mail |-> FALSE, nrcpt |-> 0, indata |-> FALSE, closing |-> FALSE,
-                closed |-> FALSE, cur |-> NoCmd, inorder |-> TRUE, nfinal |-> 0, ncb |-> 0, verdict |-> 0,
+                closed |-> FALSE, authed |-> FALSE, cur |-> NoCmd, inorder |-> TRUE, nfinal |-> 0, ncb |-> 0, verdict |-> 0,
                 msender |-> 0, mrcpts |-> <<>>, handed |-> 0, lastact |-> 0, datastart |-> 0, lastcode |-> 0]
 
-Proto == {"MAIL", "RCPT", "DATA", "HAVE_DATA"}
+Proto == {"MAIL", "RCPT", "DATA", "HAVE_DATA", "AUTH"}
 InOrder(k) ==
   CASE k = "BANNER" -> TRUE
     [] k \in {"EHLO", "HELO"} -> S.greeted
@@ -29,9 +29,11 @@ InOrder(k) ==
     [] k = "RCPT" -> S.mail
     [] k = "DATA" -> S.mail /\ S.nrcpt >= 1
     [] k = "content" -> S.indata
+    \* AUTH (sessions of a server configured with it): after EHLO/HELO, not twice, not inside a transaction
+    [] k = "AUTH" -> S.greeted /\ S.helo /\ ~S.authed /\ ~S.mail
     [] OTHER -> TRUE
 CbFor(k) == CASE k = "MAIL" -> {"MAIL"} [] k = "RCPT" -> {"RCPT"} [] k = "DATA" -> {"DATA"} [] k = "content" -> {"HAVE_DATA"}
-              [] k = "EHLO" -> {"EHLO"} [] k = "HELO" -> {"HELO"} [] k = "BANNER" -> {"BANNER"} [] OTHER -> {}
+              [] k = "EHLO" -> {"EHLO"} [] k = "HELO" -> {"HELO"} [] k = "BANNER" -> {"BANNER"} [] k = "AUTH" -> {"AUTH"} [] OTHER -> {}
 \* exactly one final reply per command line (none once the session is over)
 Finished == S.cur.kind = "" \/ S.nfinal = 1 \/ S.closed \/ (S.closing /\ S.nfinal <= 1)
 
@@ -55,6 +57,7 @@ Apply(k, code) ==
     [] k = "DATA" /\ code = 354 -> [S EXCEPT !.indata = TRUE, !.datastart = S.cur.now]
     [] k = "content" -> [S EXCEPT !.indata = FALSE, !.mail = FALSE, !.nrcpt = 0]
     [] k = "RSET" /\ code = 250 -> [S EXCEPT !.mail = FALSE, !.nrcpt = 0, !.mrcpts = <<>>, !.msender = 0]
+    [] k = "AUTH" /\ code = 235 -> [S EXCEPT !.authed = TRUE]
     [] OTHER -> S
 EvReply ==
   /\ E.t = "reply"
@@ -68,6 +71,8 @@ EvReply ==
              \cup Flag("C07_Verdict", S.verdict # 0 => E.code = S.verdict)
              \cup Flag("C07_MessageReceived", (k = "content" /\ E.code < 400) => S.ncb = 1 /\ S.handed = 1)
              \cup Flag("C07_UnknownIsError", k = "UNKNOWN" => err)
+             \* an AUTH answered 235 went through the application, and only a well-formed, in-order one can be
+             \cup Flag("C07_Order", (k = "AUTH" /\ E.code = 235) => (S.ncb = 1 /\ S.inorder /\ S.cur.wf = 1))
         /\ S' = [S1 EXCEPT !.nfinal = S.nfinal + 1, !.closing = (E.code \in {221, 421}), !.lastact = S.cur.now, !.lastcode = E.code]
 EvHandoff ==
   /\ E.t = "handoff"
